@@ -85,7 +85,10 @@ var (
 
 type prober interface{ VerifProbe() bool }
 
-// reallyFree reports whether the announced lock is free right now.
+// reallyFree reports whether the announced lock is free right now.  For a
+// sync.RWMutex the announcement does not say whether the method takes the read
+// or the write lock: "free for readers only" counts as free (the release is
+// then guarded by a time-out, like every release towards a lock that is held).
 func reallyFree(obj any) bool {
 	switch m := obj.(type) {
 	case *sync.Mutex:
@@ -94,10 +97,37 @@ func reallyFree(obj any) bool {
 			return true
 		}
 		return false
+	case *sync.RWMutex:
+		if m.TryLock() {
+			m.Unlock()
+			return true
+		}
+		if m.TryRLock() {
+			m.RUnlock()
+			return true
+		}
+		return false
 	case prober:
 		return m.VerifProbe()
 	}
 	return true // harness-owned points (the encoder) never block
+}
+
+// sureFree: a release towards this object cannot block.
+func sureFree(obj any) bool {
+	switch m := obj.(type) {
+	case nil:
+		return true
+	case *sync.Mutex, prober:
+		return reallyFree(obj)
+	case *sync.RWMutex:
+		if m.TryLock() {
+			m.Unlock()
+			return true
+		}
+		return false
+	}
+	return harnessOwned(obj)
 }
 
 func init() {
@@ -129,8 +159,24 @@ func (e *Exec) name(obj any) string {
 	return n
 }
 
-// Name registers a readable name for a lock object.
-func (e *Exec) Name(obj any, n string) { e.names[obj] = n }
+// Name registers a readable name for a (harness-owned, never blocking) scheduling point object.
+func (e *Exec) Name(obj any, n string) {
+	e.names[obj] = n
+	ownedMu.Lock()
+	owned[obj] = true
+	ownedMu.Unlock()
+}
+
+var (
+	owned   = map[any]bool{}
+	ownedMu sync.Mutex
+)
+
+func harnessOwned(obj any) bool {
+	ownedMu.Lock()
+	defer ownedMu.Unlock()
+	return owned[obj]
+}
 
 // thread identification: goroutine-local via a map keyed by the gate channel is
 // not available inside the hook, so each program thread carries its identity
@@ -351,7 +397,7 @@ func Run(prog []func(), prefix []int, mode Mode, rng *rand.Rand, maxPreempt int,
 		t.gate <- struct{}{}
 		// wait for t (and for threads that were blocked in real locks and got through meanwhile)
 		speculative := cspec[idx]
-		risky := speculative || (t.pending != nil && !reallyFreeCached(t))
+		risky := speculative || (t.pending != nil && (!reallyFreeCached(t) || !sureFree(t.pending)))
 		var deadline <-chan time.Time
 		if risky {
 			deadline = time.After(10 * time.Second)
